@@ -344,3 +344,188 @@ impl Scenario for Clones {
         out.into_iter().filter_map(|c| serde_json::to_value(c).ok()).collect()
     }
 }
+
+// =============================================================================================
+// C20-B: the same scripts, one shuttle thread per handle; shuttle's seeded scheduler owns the
+// interleaving at every source I/O call and (through the guarded hook in zip's types.rs) at every
+// load/store of the shared `data_start` atomics. Only the binary built with
+// `--cfg zip_rs_zip_verif` (shadow manifest, /verif/sim-shuttle) can run it.
+
+#[derive(Serialize, Deserialize, Clone, Debug, PartialEq)]
+pub struct ShuttleCase {
+    pub layout: Layout,
+    pub scripts: Vec<Vec<CStep>>,
+    pub sched_seed: u64,
+    /// false: uniform random scheduler; true: PCT with the given depth
+    pub pct: Option<u32>,
+}
+
+pub struct ClonesShuttle;
+
+impl Scenario for ClonesShuttle {
+    fn name(&self) -> &'static str {
+        "clones_shuttle"
+    }
+    fn total(&self, tier: Tier) -> u64 {
+        match tier {
+            Tier::Quick => 20_000,
+            Tier::Thorough => 600_000,
+        }
+    }
+    fn rule(&self) -> &'static str {
+        "one case = an archive + 2-4 cloned handles with scripts (as in part A), each handle on its own shuttle thread; one seeded shuttle schedule (uniform random or PCT) decides every context switch, with a scheduling point before every read/seek of every handle's source and at every load/store of the shared data_start atomic. Each handle's log must equal its solo log. Non-trivial = at least two handle threads ran; distinct = (scripts hash, scheduler seed and kind)"
+    }
+    fn worker_exe(&self) -> Option<String> {
+        if cfg!(zip_rs_zip_verif) {
+            None
+        } else {
+            Some(format!("{}/target/shuttle/release/zipsim", crate::runner::verif_root_real()))
+        }
+    }
+    fn gen(&self, seed: u64, idx: u64, _tier: Tier) -> Value {
+        let s = mix(mix(seed, fnv(b"clones_shuttle")), idx);
+        let mut r = Rng::derive(s, "workload");
+        let mut l = gen_clone_layout(&mut r);
+        // keep the decoders cheap under the model scheduler
+        for e in l.entries.iter_mut() {
+            if e.content.len() > 20_000 {
+                e.content = crate::content::Content::Rand { len: 20_000, seed: 3 };
+            }
+        }
+        let handles = r.range(2, 4) as usize;
+        let scripts = gen_scripts(&mut r, &l, handles);
+        let case = ShuttleCase { layout: l, scripts, sched_seed: Rng::derive(s, "schedule").next_u64(), pct: if r.chance(1, 2) { Some(r.range(1, 5) as u32) } else { None } };
+        serde_json::to_value(case).unwrap_or(Value::Null)
+    }
+    #[cfg(not(zip_rs_zip_verif))]
+    fn run(&self, _case: &Value, _ctx: &mut Ctx) -> Verdict {
+        Verdict::Harness("clones_shuttle needs the binary built with --cfg zip_rs_zip_verif (bin/setup builds it)".into())
+    }
+    #[cfg(zip_rs_zip_verif)]
+    fn run(&self, case: &Value, ctx: &mut Ctx) -> Verdict {
+        use shuttle::scheduler::{PctScheduler, RandomScheduler};
+        use std::sync::{Arc, Mutex};
+        let c: ShuttleCase = match serde_json::from_value(case.clone()) {
+            Ok(c) => c,
+            Err(e) => return Verdict::Harness(format!("bad case: {e}")),
+        };
+        let b = build(&c.layout);
+        let names: Vec<String> = b
+            .order
+            .iter()
+            .map(|ei| {
+                let e = &c.layout.entries[*ei];
+                if e.utf8 {
+                    String::from_utf8_lossy(&e.name.0).into_owned()
+                } else {
+                    cp437(&e.name.0)
+                }
+            })
+            .collect();
+        let store = shared_from(&b.image);
+        let outcome: Arc<Mutex<Option<Result<u64, String>>>> = Arc::new(Mutex::new(None));
+        let out2 = outcome.clone();
+        let scripts = c.scripts.clone();
+        let body = move || {
+            let hook: Arc<dyn Fn() + Send + Sync> = Arc::new(|| shuttle::thread::sleep(std::time::Duration::from_secs(0)));
+            let mk = || {
+                let mut d = SimDisk::new(store.clone(), Policy::Pure);
+                d.yield_hook = Some(hook.clone());
+                d
+            };
+            // solo logs (inside the model execution: the crate's atomics are shuttle's in this build)
+            let mut solo = vec![];
+            for sc in &scripts {
+                match ZipArchive::new(mk()) {
+                    Ok(mut ar) => solo.push(run_script(&mut ar, sc, &names, &mut || {})),
+                    Err(e) => {
+                        *out2.lock().unwrap() = Some(Err(format!("SKIP archive does not open: {}", zerr_pub(&e))));
+                        return;
+                    }
+                }
+            }
+            let base = match ZipArchive::new(mk()) {
+                Ok(a) => a,
+                Err(_) => return,
+            };
+            let mut hs = vec![];
+            for sc in scripts.iter() {
+                let mut ar = base.clone();
+                let sc = sc.clone();
+                let names = names.clone();
+                hs.push(shuttle::thread::spawn(move || run_script(&mut ar, &sc, &names, &mut || {})));
+            }
+            drop(base);
+            let mut steps = 0u64;
+            for (k, h) in hs.into_iter().enumerate() {
+                let log = match h.join() {
+                    Ok(l) => l,
+                    Err(_) => {
+                        *out2.lock().unwrap() = Some(Err(format!("handle {k} panicked")));
+                        return;
+                    }
+                };
+                steps += log.len() as u64;
+                if log != solo[k] {
+                    let at = log.iter().zip(solo[k].iter()).position(|(x, y)| x != y).unwrap_or(log.len().min(solo[k].len()));
+                    *out2.lock().unwrap() = Some(Err(format!("handle {k}, log line {at}: concurrent {:?} vs alone {:?}", log.get(at), solo[k].get(at))));
+                    return;
+                }
+            }
+            *out2.lock().unwrap() = Some(Ok(steps));
+        };
+        let mut cfg = shuttle::Config::new();
+        cfg.stack_size = 1 << 20;
+        cfg.failure_persistence = shuttle::FailurePersistence::None;
+        cfg.max_steps = shuttle::MaxSteps::FailAfter(5_000_000);
+        let r = std::panic::catch_unwind(std::panic::AssertUnwindSafe(|| match c.pct {
+            Some(d) => {
+                shuttle::Runner::new(PctScheduler::new_from_seed(c.sched_seed, d as usize, 1), cfg).run(body);
+            }
+            None => {
+                shuttle::Runner::new(RandomScheduler::new_from_seed(c.sched_seed, 1), cfg).run(body);
+            }
+        }));
+        if r.is_err() {
+            let (loc, msg) = take_panic().unwrap_or_default();
+            return viol("C20/panic-under-schedule", format!("panic at {loc}: {msg} (shuttle seed {}, scheduler {:?})", c.sched_seed, c.pct));
+        }
+        let o = outcome.lock().unwrap().take();
+        match o {
+            Some(Ok(steps)) => {
+                ctx.io_events += steps;
+                ctx.sig = Some(mix(fnv(format!("{:?}", c.scripts).as_bytes()), mix(c.sched_seed, c.pct.unwrap_or(0) as u64)));
+                ctx.probe(if c.pct.is_some() { "pct_schedules" } else { "random_schedules" });
+                Verdict::Pass
+            }
+            Some(Err(e)) if e.starts_with("SKIP") => Verdict::Skip(e),
+            Some(Err(e)) => viol("C20/handle-observation-differs", format!("{e} (shuttle seed {}, scheduler {:?})", c.sched_seed, c.pct)),
+            None => Verdict::Skip("execution did not finish".into()),
+        }
+    }
+    fn shrink(&self, case: &Value) -> Vec<Value> {
+        let c: ShuttleCase = match serde_json::from_value(case.clone()) {
+            Ok(c) => c,
+            Err(_) => return vec![],
+        };
+        let mut out = vec![];
+        if c.scripts.len() > 2 {
+            for i in 0..c.scripts.len() {
+                let mut v = c.scripts.clone();
+                v.remove(i);
+                out.push(ShuttleCase { scripts: v, ..c.clone() });
+            }
+        }
+        for i in 0..c.scripts.len() {
+            for j in (0..c.scripts[i].len()).rev() {
+                let mut v = c.scripts.clone();
+                v[i].remove(j);
+                out.push(ShuttleCase { scripts: v, ..c.clone() });
+            }
+        }
+        for k in 0..6u64 {
+            out.push(ShuttleCase { sched_seed: k, ..c.clone() });
+        }
+        out.into_iter().filter_map(|c| serde_json::to_value(c).ok()).collect()
+    }
+}
